@@ -968,7 +968,13 @@ theorem dearmor_calls_cur_total (steps : List (Bool × Bool)) (h : Gen.fixD4g = 
 /-! ## every encrypted container × every session key (kind, algorithm octet, length) -/
 
 theorem cfb_new_total (sym keyLen : Nat) : cfbNew sym keyLen ≠ .panic := by
-  unfold cfbNew; split <;> simp
+  have hpre : cfbNewPreFix sym keyLen ≠ .panic := by unfold cfbNewPreFix; split <;> simp
+  unfold cfbNew cfbNewFixed
+  split
+  · split
+    · simp
+    · exact hpre
+  · exact hpre
 
 theorem sed_admit_total (legacy : Bool) (sk : SkKind) (keyLen : Nat) : sedAdmit legacy sk keyLen ≠ .panic := by
   unfold sedAdmit
